@@ -18,7 +18,7 @@
      [code]                          the code that exists (copy.copy kept; repaired mapping data_vector);
      [no_copy], [unguarded]          the two mutants *)
 From Coq Require Import List Arith Bool ZArith Reals.
-From PAV Require Import Base.Res Base.Check Base.NumOps Model.C03 Model.C04 Model.C04Lib Proofs.C04 Model.C15 Proofs.C15 Model.C15k Proofs.C15k Proofs.C15s Proofs.C15f.
+From PAV Require Import Base.Res Base.Check Base.NumOps Model.C03 Model.C04 Model.C04Lib Proofs.C04 Model.C15 Proofs.C15 Model.C15k Proofs.C15k Proofs.C15s Proofs.C15f Proofs.C15x.
 Import ListNotations.
 
 (* 1. Transparency: for every subset of slots filled with fresh values, every sequence of attribute reads returns
@@ -264,6 +264,47 @@ Theorem C15_set_preloads_store_fresh_values_C04_kernels :
     (forall h, make_inversion K inp0 P' = Ok (f_mode f0) ->
                fst (run_history K inp0 code P' h) = map (fun qs => Ok (map (pure K inp0 (f_mode f0)) qs)) h).
 Proof. exact c04_set_preloads_fresh. Qed.
+(* 12. ... ACROSS the two classes, for the concrete kernels.  The fits of the preload set-up may be built in one formalism (in
+       production the mapping formalism, Preloads(use_w_tilde=False)) while set_w_tilde_imaging makes the factory build the OTHER
+       class afterwards: slots produced by one class are consumed by the other (this is where defect f780999 lived).  If fit_0's
+       inversion has no array preloads of its own ([plain]), then for every second fit, every methods list, every attributes read
+       beforehand and WHICHEVER class the factory builds with the filled Preloads object, every history of inversions on fit_0's
+       inputs returns the specification values of fit_0's class.  Ingredients: the methods store exactly the fresh values of
+       fit_0's class (incl. the mapping class's mapper-diag blocks); a mapper's data-vector block and curvature block are the SAME
+       LISTS in the two classes (B^T N^-1 d from the blurred mapping matrix = from w_tilde_data; np.dot block = w-tilde preload block;
+       the block-diagonal matrix is symmetric so the mirror leaves it alone); theorem 10. *)
+Theorem C15_set_preloads_any_class_C04_kernels :
+  forall (c : @convolver ROps) (m : mask) (Kp : @kernel ROps) encf dec slv ldc ldr (Cm : cmpk R) (inp : input R),
+    rectb m = true -> @convolver_init ROps m Kp = Ok c ->
+    wf_input c encf (length (unmasked m)) inp -> in_objs inp <> [] ->
+    length (ds_d (in_ds inp)) = length (unmasked m) -> length (ds_n (in_ds inp)) = length (unmasked m) ->
+    (forall i, (i < length (unmasked m))%nat -> (0 < nth i (ds_n (in_ds inp)) 0)%R) ->
+    (forall A b sv, slv A b = Ok sv -> length sv = length b) ->
+    tok_ok m Kp dec inp (ds_wt (in_ds inp)) ->
+    forall own0 f0 f1 reads0 ss,
+    make_fit (KR c m Kp encf dec slv ldc ldr) inp own0 = Ok f0 -> plain R own0 -> wt_slot_ok m Kp dec inp own0 ->
+    let K := KR c m Kp encf dec slv ldc ldr in
+    let r := run_setters K code Cm ss empty_store (snd (freads K code f0 reads0)) f1 in
+    let P' := snd (fst (fst r)) in
+    forall mode' h, make_inversion K inp P' = Ok mode' ->
+      fst (run_history K inp code P' h) = map (fun qs => Ok (map (pure K inp (f_mode f0)) qs)) h.
+Proof. exact c04_set_preloads_any_class. Qed.
+(* the two block identities of 12 on their own *)
+Theorem C15_mapper_blocks_same_in_both_classes :
+  forall (c : @convolver ROps) (m : mask) (Kp : @kernel ROps) encf dec slv ldc ldr (inp : input R) (np : nat),
+    wf_input c encf np inp -> rectb m = true -> @convolver_init ROps m Kp = Ok c -> np = length (unmasked m) ->
+    length (C15.n inp) = np -> length (C15.d inp) = np -> (forall i, (i < np)%nat -> (0 < nth i (C15.n inp) 0)%R) ->
+    forall (w : wtilde R) (pre : list R) (idx lens : list nat),
+    dec (wt_w w) = (pre, idx, lens) -> @preload ROps (@native ROps m (C15.n inp)) Kp (unmasked m) = (pre, idx, lens) ->
+    p_dvm (KR c m Kp encf dec slv ldc ldr) inp None = p_dvm (KR c m Kp encf dec slv ldc ldr) inp (Some w) /\
+    p_cmd_map (KR c m Kp encf dec slv ldc ldr) inp = p_cmd (KR c m Kp encf dec slv ldc ldr) inp w.
+Proof. exact mapper_blocks_same. Qed.
+Example C15_hyps_any_class :
+  let K := KR exC exM exK (@dense_enc ROps) exDec exSlv (fun _ => Ok 0%R) (fun _ => Ok 0%R) in
+  (exists f0, make_fit K exInp empty_store = Ok f0 /\ f_mode f0 = Some (ds_wt (in_ds exInp))) /\
+  plain R empty_store /\ wt_slot_ok exM exK exDec exInp empty_store /\ tok_ok exM exK exDec exInp (ds_wt (in_ds exInp)).
+Proof. exact ex_any_class_hyps. Qed.
+
 (* non-vacuity of 11: one regularized mapper, mapping class; all five methods fill curvature_matrix, operated_mapping_matrix,
    regularization_matrix, the log-determinant and use_w_tilde, and the factory still builds fit_0's class *)
 Example C15_hyps_set_preloads :
@@ -315,3 +356,5 @@ Print Assumptions C15_formalism_choice_value_free_C04_kernels.
 Print Assumptions C15_factory_choice_value_free_C04_kernels.
 Print Assumptions C15_set_preloads_store_fresh_values.
 Print Assumptions C15_set_preloads_store_fresh_values_C04_kernels.
+Print Assumptions C15_set_preloads_any_class_C04_kernels.
+Print Assumptions C15_mapper_blocks_same_in_both_classes.
